@@ -167,6 +167,12 @@ def step (s : St) (kind : String) (args impl : List String) : Option (St × Step
     let h ← C20.hash? ht
     if h ∈ s.sat then pure (s, { obs := ["rejected", qTok s.m.q, flTok s.m], branch := "inc.rejected", propfails := inflightMon impl })
     else act s (.incoming h (decide (h ∈ s.cached))) ["active"] (if (s.m.ctrl h).isSome then "inc.existing" else "inc.add") impl
+  | ["incbad", ht] => do
+    -- the conn is rejected by the dispatcher after addIncomingConn has created the control: for the queue this is
+    -- the same as an accepted conn (the control stays, queued once)
+    let h ← C20.hash? ht
+    if h ∈ s.sat then pure (s, { obs := ["rejected", qTok s.m.q, flTok s.m], branch := "incbad.rejected", propfails := inflightMon impl })
+    else act s (.incoming h (decide (h ∈ s.cached))) ["connrejected"] (if (s.m.ctrl h).isSome then "incbad.existing" else "incbad.add") impl
   | ["evict", ht] => do
     let h ← C20.hash? ht
     let r := if h ∈ s.cached then "evicted" else "none"
